@@ -31,7 +31,7 @@ def models(cons):
     for asg in itertools.product(range(M),repeat=2):
         if all(ev(c,asg) for c in cons): out.append(asg)
     return out
-KINDS={"Solver":lambda:claripy.Solver(),"Cacheless":lambda:claripy.SolverCacheless(),"Composite":lambda:claripy.SolverComposite(),
+KINDS={"CompositeHybridless":lambda:claripy.SolverComposite(template_solver=claripy.SolverCacheless()),"Solver":lambda:claripy.Solver(),"Cacheless":lambda:claripy.SolverCacheless(),"Composite":lambda:claripy.SolverComposite(),
        "Replacement":lambda:claripy.SolverReplacement(claripy.Solver()),"Hybrid":lambda:claripy.SolverHybrid(),"Core":lambda:claripy.Solver(track=True)}
 bugs={}
 def report(kind, what, hist):
@@ -44,7 +44,7 @@ for it in range(N):
     hist=[]
     for step in range(rnd.randint(3,12)):
         i=rnd.randrange(len(states)); s,cons=states[i]
-        op=rnd.choice(["add","add","eval","eval","min","max","sat","solution","branch","simplify","pickle","merge","split","downsize","core","isin"])
+        op=rnd.choice(["add","add","eval","eval","min","max","sat","solution","branch","simplify","pickle","merge","split","downsize","core","combine","batch","istrue"])
         try:
             if op=="add":
                 c=rcons(); hist.append(("add",i,str(c))); s.add(c); cons.append(c)
@@ -117,8 +117,29 @@ for it in range(N):
                             core=s.unsat_core()
                             if models(list(core)): report(kind,f"core: core {[str(c) for c in core]} is satisfiable",hist)
                         except Exception as ex: report(kind,f"core!: {type(ex).__name__} {str(ex)[:60]}",hist)
-            elif op=="isin":
-                pass
+            elif op=="combine" and len(states)>1:
+                j=rnd.randrange(len(states))
+                if j!=i:
+                    o,oc=states[j]; hist.append(("combine",i,j))
+                    cb=s.combine([o])
+                    if set(models(cons+oc))!=set(a for a in itertools.product(range(M),repeat=2) if cb.satisfiable(extra_constraints=[x==a[0],y==a[1]])): report(kind,"combine: models differ",hist)
+            elif op=="batch":
+                e1,e2=x+rexpr(1),y^rexpr(1); hist.append(("batch",i,str(e1),str(e2)))
+                ms=models(cons); want={(ev(e1,a),ev(e2,a)) for a in ms}
+                try: got=s.batch_eval([e1,e2],3)
+                except claripy.UnsatError: got=None
+                if ms:
+                    if got is None: report(kind,"batch: UnsatError but models exist",hist)
+                    elif not set(map(tuple,got))<=want or len(set(map(tuple,got)))!=min(3,len(want)): report(kind,f"batch: got {got} want {min(3,len(want))} of {sorted(want)[:6]}",hist)
+                elif got: report(kind,f"batch: unsat but got {got}",hist)
+            elif op=="istrue":
+                c=rcons(0); hist.append(("istrue",i,str(c)))
+                ms=models(cons)
+                if ms:
+                    t=s.is_true(c); f=s.is_false(c)
+                    allt=all(ev(c,a) for a in ms); allf=not any(ev(c,a) for a in ms)
+                    if t and not allt: report(kind,"is_true: True but a model falsifies it",hist)
+                    if f and not allf: report(kind,"is_false: True but a model satisfies it",hist)
         except claripy.UnsatError:
             if models(cons) and op not in ("eval","min","max","sat","solution"): report(kind,f"{op}: stray UnsatError",hist)
         except Exception as ex:
